@@ -179,7 +179,69 @@ func (h *History) Step() {
 				if proposer != nil {
 					who = proposer.Name
 				}
-				t.Fatalf("honest block refused: %s built by %s, refused by %s: %v", BlockDesc(blk), who, r.Name, err)
+				h.Blocks = append(h.Blocks, blk)
+				poolDesc := ""
+				if proposer != nil {
+					for _, tx := range proposer.Pool.GetPendingTransaction(true, true, 0, false) {
+						from, _ := types.Sender(tx)
+						to := "-"
+						if tx.To != nil {
+							to = w.Name(*tx.To)
+						}
+						poolDesc += fmt.Sprintf(" %s(%s->%s,nonce=%d,epoch=%d,amount=%v,maxFee=%v,tips=%v)", TxTypeNames[tx.Type], w.Name(from), to, tx.AccountNonce, tx.Epoch, tx.Amount, tx.MaxFee, tx.Tips)
+					}
+				}
+				if proposer != nil {
+					// diagnostics: the same proposer key on a copy of its database with a pool holding only the included txs
+					clean := &Replica{W: w, Name: "clean", Key: proposer.Key, Addr: proposer.Addr, DB: CopyDB(proposer.DB), Ipfs: proposer.Ipfs, Loc: time.UTC}
+					if e := clean.Start(); e == nil {
+						for _, tx := range blk.Body.Transactions {
+							clean.Pool.AddExternalTxs(validation.MempoolTx, tx)
+						}
+						cb := clean.Propose().Block
+						poolDesc += fmt.Sprintf("\nclean-pool proposal: txs=%d root=%x (original proposal root=%x); validates on refusing replica: %v", len(cb.Body.Transactions), cb.Root(), blk.Root(), r.Validate(cb))
+						// which single left-out pool tx makes the proposal invalid?
+						inBlock := map[[32]byte]bool{}
+						for _, tx := range blk.Body.Transactions {
+							inBlock[tx.Hash()] = true
+						}
+						for _, extra := range proposer.Pool.GetPendingTransaction(true, true, 0, false) {
+							if inBlock[extra.Hash()] {
+								continue
+							}
+							c2 := &Replica{W: w, Name: "clean2", Key: proposer.Key, Addr: proposer.Addr, DB: CopyDB(proposer.DB), Ipfs: proposer.Ipfs, Loc: time.UTC}
+							if e := c2.Start(); e != nil {
+								continue
+							}
+							for _, tx := range blk.Body.Transactions {
+								c2.Pool.AddExternalTxs(validation.MempoolTx, tx)
+							}
+							addErr := c2.Pool.AddExternalTxs(validation.MempoolTx, extra)
+							b2 := c2.Propose().Block
+							from, _ := types.Sender(extra)
+							verdict := r.Validate(b2)
+							poolDesc += fmt.Sprintf("\n  with extra %s(%s,nonce=%d,epoch=%d) [pool add err=%v]: txs=%d validates: %v", TxTypeNames[extra.Type], w.Name(from), extra.AccountNonce, extra.Epoch, addErr, len(b2.Body.Transactions), verdict)
+							if verdict != nil {
+								hdr := &types.ProposedHeader{Height: blk.Height(), ParentHash: blk.Header.ParentHash(), Time: blk.Header.Time(), ProposerPubKey: blk.Header.ProposedHeader.ProposerPubKey, FeePerGas: blk.Header.ProposedHeader.FeePerGas}
+								csA, _ := c2.AppState.ForCheck(c2.Head().Height())
+								c2.Chain.VerifFilterTxs(csA, blk.Body.Transactions, hdr)
+								dA := csA.State.Precommit(true)
+								csB, _ := c2.AppState.ForCheck(c2.Head().Height())
+								c2.Chain.VerifFilterTxs(csB, append(append([]*types.Transaction{}, blk.Body.Transactions...), extra), hdr)
+								dB := csB.State.Precommit(true)
+								poolDesc += "\n    state writes of the builder's filter, included txs only:"
+								for _, d := range dA {
+									poolDesc += fmt.Sprintf(" %x(del=%v,%x)", d.Key, d.Deleted, d.Value)
+								}
+								poolDesc += "\n    state writes with the extra tx offered as well:"
+								for _, d := range dB {
+									poolDesc += fmt.Sprintf(" %x(del=%v,%x)", d.Key, d.Deleted, d.Value)
+								}
+							}
+						}
+					}
+				}
+				t.Fatalf("honest block refused: %s built by %s, refused by %s: %v\nproposer pool:%s\nhistory (last block is the refused one):\n%s", BlockDesc(blk), who, r.Name, err, poolDesc, h.Summary())
 			}
 		}
 	}
